@@ -2,7 +2,7 @@
    files (model evaluated at binary64 / on integers vs values observed on the
    implementation). *)
 From Coq Require Import List ZArith NArith Bool PrimFloat.
-From T4V Require Import Base.Scalar Base.Cases C13.Model.
+From T4V Require Import Base.Scalar Base.Cases C13.Model C13.ModelTr.
 Import ListNotations.
 Open Scope Z_scope.
 
@@ -41,7 +41,8 @@ Definition ops_eqb (a b : option (opk * list Z)) : bool :=
 
 Definition volu_eqb (a b : volu) : bool :=
   zlist_eqb (pluses a) (pluses b) && zlist_eqb (minuses a) (minuses b)
-  && ops_eqb (ops a) (ops b) && Bool.eqb (fictive a) (fictive b).
+  && ops_eqb (ops a) (ops b) && Bool.eqb (fictive a) (fictive b)
+  && list_eqb zpair_eqb (vorigin a) (vorigin b).
 
 Definition volus_eqb := list_eqb (pair_eqb Z.eqb volu_eqb).
 
@@ -79,7 +80,8 @@ Fixpoint geom_eqb (a b : geom) : bool :=
   end.
 
 Definition mcell_eqb (a b : mcell) : bool :=
-  Z.eqb (cuniv a) (cuniv b) && option_eqb Z.eqb (cfill a) (cfill b) && geom_eqb (cgeom a) (cgeom b).
+  Z.eqb (cuniv a) (cuniv b) && option_eqb Z.eqb (cfill a) (cfill b) && geom_eqb (cgeom a) (cgeom b)
+  && list_eqb zpair_eqb (corigin a) (corigin b) && Z.eqb (cmat a) (cmat b).
 
 Definition dic_eqb := list_eqb (pair_eqb Z.eqb mcell_eqb).
 
@@ -106,3 +108,18 @@ Definition check_inline_score (c : list (Z * mcell) * float * res (list (Z * mce
 Definition check_fill (c : bool * bool * list (Z * mcell) * Z * res (list (Z * mcell) * Z)) : bool :=
   let '(fd, fg, dic, counter, expected) := c in
   res_eqb (pair_eqb dic_eqb Z.eqb) (fill_loop 40 fd fg dic (fill_keys dic) (dic, counter)) expected.
+
+(* (i) the FILL loop with transformations: cells, (filltr, trcl) per cell,
+   new_cell_key, new_surf_key before; cells and the two counters after *)
+Definition ftr_eqb : list float -> list float -> bool := list_eqb PrimFloat.eqb.
+
+Definition check_fill_tr
+  (c : bool * bool * list (Z * mcell) * list (Z * (option (list float) * list (list float))) * Z * Z
+       * res (list (Z * mcell) * Z * Z)) : bool :=
+  let '(fd, fg, dic, tinfo, ckey, skey, expected) := c in
+  let got := match fill_loop_tr ftr_eqb 40 fd fg dic tinfo (fill_keys dic) (MkT dic ckey skey [] []) with
+             | Ok st => Ok (tcells st, tckey st, tskey st)
+             | Err e => Err e
+             end in
+  res_eqb (fun x y => let '(d, a, b) := x in let '(d', a', b') := y in
+                      dic_eqb d d' && Z.eqb a a' && Z.eqb b b') got expected.
